@@ -43,6 +43,10 @@ ObsLoggerOK(s, l, o) ==
     /\ Has(o, "parent") => o.parent = s.parent[l]
     /\ Has(o, "root") => o.root = RootOf(s, l)
     /\ Has(o, "shape") => o.shape = Fmt(s.cfg[l])
+    \* timestamp of a probe record (if one was written): some layout the model allows, in the zone
+    \* the model selects, explains the printed text (o.ts.fits = <<layout, zone>> pairs that do)
+    /\ Has(o, "ts") => (o.ts.got => \E j \in DOMAIN o.ts.fits :
+                            o.ts.fits[j][2] = TsZone(s, l) /\ o.ts.fits[j][1] \in TsLayouts(s, l))
     \* what a probe record shows: own attributes, preceded by the ancestors' while the inherit flag is on
     /\ Has(o, "attrs") => o.attrs = Leaves(Chain(s, l), <<>>)
     /\ Has(o, "each") => o.each = EachOf(s, l)
